@@ -1,6 +1,62 @@
 package props
 
-import "golang.org/x/tools/go/ssa"
+import (
+	"fmt"
+	"time"
 
-// boundsFor runs the BOUNDS engine over the given entry points (filled in by bounds.go).
-var boundsFor = func(c *Ctx, prop string, entries []*ssa.Function) {}
+	"golang.org/x/tools/go/ssa"
+
+	"rtpcheck/bounds"
+	"rtpcheck/core"
+)
+
+// panicKinds are the obligation kinds whose failure means "may panic".
+var kindNames = map[string]string{
+	"IDX": "index in range", "SLC": "slice bounds in range", "MK": "make length valid", "SHF": "shift count non-negative",
+	"DIV": "divisor non-zero", "NIL": "pointer non-nil", "PRE": "stdlib precondition", "ASRT": "assertion/panic unreachable",
+	"EXT": "callee modelled", "CTR": "contract",
+}
+
+// boundsRun analyses the entries and reports every aggregated obligation under rule BOUNDS.<kind>.
+func boundsRun(c *Ctx, entries []*ssa.Function, hooks *bounds.Hooks) int {
+	p, r := c.Prog, c.R
+	cfg := bounds.Config{K: 64, MaxDepth: 4}
+	if c.Tier == "thorough" {
+		cfg = bounds.Config{K: 128, MaxDepth: 6}
+	}
+	t0 := time.Now()
+	eng := bounds.New(p, cfg, hooks)
+	seen := map[*ssa.Function]bool{}
+	for _, fn := range entries {
+		if fn == nil || seen[fn] {
+			continue
+		}
+		seen[fn] = true
+		eng.AnalyzeEntry(fn)
+	}
+	n := 0
+	for _, o := range eng.Obligations() {
+		n++
+		text := p.TextAt(o.Pos, o.Instr.String())
+		if o.Text != "" {
+			text = o.Text + ": " + text
+		}
+		r.Add("BOUNDS."+o.Kind, core.FuncName(o.Fn), text, p.Position(o.Pos), o.OK,
+			fmt.Sprintf("%s not entailed (%d context(s)): %s", kindNames[o.Kind], o.Contexts, o.Detail))
+	}
+	for f := range eng.Funcs() {
+		r.FuncsSeen[core.FuncName(f)] = true
+	}
+	en, fe, st := eng.Stats()
+	r.Infof("BOUNDS: %d entries, %d functions, %d obligations, %d entailment queries, %d feasibility queries, %d instruction steps, %.1fs (K=%d depth=%d)",
+		len(seen), len(eng.Funcs()), n, en, fe, st, time.Since(t0).Seconds(), cfg.K, cfg.MaxDepth)
+	return n
+}
+
+// boundsFor runs the BOUNDS engine over the given entry points with the property's contracts.
+var boundsFor = func(c *Ctx, prop string, entries []*ssa.Function) {
+	boundsRun(c, entries, contractsFor(c, prop))
+}
+
+// contractsFor returns the contract hooks of a property (nil = panic obligations only).
+func contractsFor(c *Ctx, prop string) *bounds.Hooks { return nil }
